@@ -844,7 +844,9 @@ def do_indent(
     newline = "\n"
 
     if isinstance(s, Markup):
-        indention = Markup(indention)
+        # A plain string width is untrusted text: escape it. A Markup width
+        # (or the spaces built from an integer) passes through unchanged.
+        indention = escape(indention)
         newline = Markup(newline)
 
     s += newline  # this quirk is necessary for splitlines method
